@@ -155,7 +155,7 @@ def bounded_decrement(L, r, role, operand, taken):
     return False, "taken orders: %s" % [short(o) for o in taken]
 
 
-def check_constructors(ctx, chk, L):
+def check_constructors(ctx, chk, L, rid="L4", rid0="L0"):
     db = ctx.db
     R = L.R
     level_def = L.level_adt["def"]
@@ -163,48 +163,64 @@ def check_constructors(ctx, chk, L):
     # the fold rule on refresh_aggregates
     ra = db.method("PriceLevelSnapshot", "refresh_aggregates")
     fold_ok, fold_detail = check_refresh_aggregates(ctx, ra, R)
-    chk.require(fold_ok, "L4", "%s:fold" % ra.defp, ra.span, fold_detail)
-    # every construction site of a PriceLevel aggregate
-    n_sites = 0
+    chk.require(fold_ok, rid, "%s:fold" % ra.defp, ra.span, fold_detail)
+    # every public way of obtaining a PriceLevel value: private helpers are inlined into their callers, other public
+    # constructors are treated as (separately checked) delegation targets
+    import re as _re
+    ty_re = _re.compile(r"(^|[<\s,(&])price_level::level::PriceLevel($|[>\s,)])")
+    entries = {}
     for b in db.bodies.values():
-        has = False
-        for blk in b.blocks:
-            for s in blk["stmts"]:
-                if s["k"] == "assign" and s["rv"]["k"] == "agg" and s["rv"].get("adt") == level_def:
-                    has = True
-        if not has:
+        if b.kind == "Closure" or not b.locals:
             continue
-        w = L.walker(max_depth=2)
-        w.no_inline = lambda p: p.endswith("refresh_aggregates") or "OrderQueue" in p or "PriceLevelStatistics" in p
-        # record constructions through a custom hook: walk and inspect returned / written aggregates
+        if not ty_re.search(b.locals[0]["ty"]):
+            continue
+        if b.vis == "pub" or b.impl_trait is not None:
+            entries[b.defp] = b
+    n_sites = 0
+    for d, b in sorted(entries.items()):
+        w = L.walker(max_depth=4)
+        w.no_inline = lambda p, d=d: p.endswith("refresh_aggregates") or "OrderQueue" in p or "PriceLevelStatistics" in p \
+            or p.endswith("PriceLevel::add_order") or (p in entries and p != d) or "into_snapshot" in p or p.endswith("::from_json")
         res = w.walk(b)
         for r in res:
             if r.kind != "return":
                 continue
-            for t in subterms(r.value):
-                if isinstance(t, tuple) and t[0] == "agg" and t[1] == level_def:
-                    n_sites += 1
-                    ok, detail = constructor_site_ok(L, r, t, ra)
-                    chk.require(ok, "L4", "%s:construct" % b.defp, b.span, detail, describe_path(r))
-    chk.require(n_sites >= 2, "L0", "constructors-found", "", "found %d PriceLevel construction paths (expected the empty constructor and the snapshot constructors)" % n_sites)
+            aggs = [t for t in subterms(r.value) if isinstance(t, tuple) and t and t[0] == "agg" and t[1] == level_def]
+            for t in aggs:
+                n_sites += 1
+                ok, detail = constructor_site_ok(L, r, t, ra)
+                chk.require(ok, rid, "%s:construct" % b.defp, b.span, detail, describe_path(r))
+            if not aggs:
+                v = r.value
+                is_err = isinstance(v, tuple) and v[0] == "agg" and v[2] == "Err"
+                delegated = any(isinstance(t, tuple) and t and t[0] == "call" and any(t[1] == cname_of(e) for e in entries) for t in subterms(v))
+                chk.require(is_err or delegated, rid, "%s:delegates" % b.defp, b.span,
+                            "returns a level that is neither constructed here nor obtained from another checked constructor: %s" % short(v)[:160], describe_path(r))
+    chk.require(n_sites >= 2, rid0, "constructors-found", "", "found %d PriceLevel construction paths (expected the empty constructor and the snapshot constructors)" % n_sites)
     # constructors that re-add: must start from PriceLevel::new and only use add_order
     for tr, self_ty, meth in (("TryFrom", "PriceLevel", "try_from"), ("FromStr", "PriceLevel", "from_str")):
         b = db.method(self_ty, meth, trait=tr)
         closure = ctx.cg.reach([b.defp])
-        direct_ctor = [d for d in closure if d != db.method("PriceLevel", "new").defp and any(
+        new_helpers = ctx.cg.reach([db.method("PriceLevel", "new").defp])
+        direct_ctor = [d for d in closure if d not in new_helpers and any(
             s["k"] == "assign" and s["rv"]["k"] == "agg" and s["rv"].get("adt") == level_def
             for blk in db.bodies[d].blocks for s in blk["stmts"]) and "from_snapshot" not in d and "From<&" not in d]
-        chk.require(not direct_ctor, "L4", "%s:re-add" % b.defp, b.span,
+        chk.require(not direct_ctor, rid, "%s:re-add" % b.defp, b.span,
                     "constructs a PriceLevel aggregate directly in %s instead of new()+add_order" % direct_ctor)
         eff = [(c, m, d) for c, m, d, callee, sp in ctx.cg.effects_closure(b.defp)
                if c == "ATOMIC" and m not in ("load", "fetch_add", "fetch_sub", "new") and "statistics" not in d and "uuid" not in d]
-        chk.require(not eff, "L4", "%s:counters" % b.defp, b.span, "counter written by %s" % eff)
+        chk.require(not eff, rid, "%s:counters" % b.defp, b.span, "counter written by %s" % eff)
         calls_add = db.method("PriceLevel", "add_order").defp in closure
-        chk.require(calls_add, "L4", "%s:uses-add_order" % b.defp, b.span, "does not reach add_order")
+        chk.require(calls_add, rid, "%s:uses-add_order" % b.defp, b.span, "does not reach add_order")
     de = db.method("PriceLevel", "deserialize", trait="Deserialize")
     closure = ctx.cg.reach([de.defp])
-    chk.require(db.method("PriceLevel", "try_from", trait="TryFrom").defp in closure, "L4", "%s:via-try_from" % de.defp, de.span,
+    chk.require(db.method("PriceLevel", "try_from", trait="TryFrom").defp in closure, rid, "%s:via-try_from" % de.defp, de.span,
                 "Deserialize for PriceLevel does not go through TryFrom<PriceLevelData>")
+
+
+def cname_of(defp):
+    from ..walk import cname
+    return cname(defp)
 
 
 def check_refresh_aggregates(ctx, ra, R):
@@ -214,6 +230,16 @@ def check_refresh_aggregates(ctx, ra, R):
     res = w.walk(ra)
     rets = [r for r in res if r.kind == "return"]
     backs = [r for r in res if r.kind == "backedge"]
+    # the order list itself must not be altered (dropped, re-ordered, extended) while the aggregates are recomputed
+    for r in res:
+        for e in r.trace:
+            if e[0] == "call":
+                for a in e[2]:
+                    if isinstance(a, tuple) and a[0] == "ref" and a[2] and a[1][1] == ("obj", ("param", 1)) and a[1][2] and a[1][2][0][2] == "orders":
+                        return False, "refresh_aggregates alters the order list itself (%s)" % e[1]
+        for (root, path) in r.state.heap:
+            if root == ("obj", ("param", 1)) and path and path[0][2] == "orders":
+                return False, "refresh_aggregates writes the order list"
     if len(rets) >= 1 and len(backs) == 0:
         return check_refresh_by_sum(ctx, rets, R)
     if len(rets) < 1 or len(backs) < 1:
